@@ -14,23 +14,23 @@ import (
 // Client is a fake driver connection: an inline state machine that encodes requests with the
 // reference codec and decodes every byte it receives.
 type Client struct {
-	w           *World
-	ID          int
-	Link        *simnet.Link
-	Version     primitive.ProtocolVersion
-	Compression string // as negotiated by STARTUP ("" none)
-	inbuf       []byte
-	Outstanding map[int16]*ClientReq
-	Reqs        []*ClientReq
-	Events      []*frame.Frame // EVENT frames (stream -1)
-	Closed      bool           // the proxy closed the connection (or it was reset)
-	Gone        bool           // the client disconnected on purpose
-	Ready       bool
-	nextStream  int16
-	Keyspace    string // model: last successful USE
+	w                    *World
+	ID                   int
+	Link                 *simnet.Link
+	Version              primitive.ProtocolVersion
+	Compression          string // as negotiated by STARTUP ("" none)
+	inbuf                []byte
+	Outstanding          map[int16]*ClientReq
+	Reqs                 []*ClientReq
+	Events               []*frame.Frame // EVENT frames (stream -1)
+	Closed               bool           // the proxy closed the connection (or it was reset)
+	Gone                 bool           // the client disconnected on purpose
+	Ready                bool
+	nextStream           int16
+	Keyspace             string // model: last successful USE
 	UndecodableFromProxy []string
 	Unsolicited          []string
-	ProxyID              int // which proxy instance it is connected to
+	ProxyID              int  // which proxy instance it is connected to
 	Hostile              bool // sends mutated frames: replies cannot be attributed
 	LowestFree           bool // stream policy: always reuse the lowest free id (immediate reuse)
 }
